@@ -199,6 +199,7 @@ type Model struct {
 	Contracts       []Addr        // contract addresses in creation order (top-level deployments)
 	Deployed        map[Addr]bool // addresses created by successful deployment transactions
 	Inner           map[Addr]bool // contracts created by contracts
+	InnerList       []Addr
 	Destroyed       map[Addr]bool // contracts that self-destructed
 	GenesisInFlight int           // genesis stakes that were unbonding at the start or the end of the current block
 	ChainID         string
